@@ -114,11 +114,12 @@ class Check:
             "violations": len(self.violations), "notes": self.notes,
             "repo": kioenv.REPO,
         }
-        os.makedirs(EVIDENCE_DIR, exist_ok=True)
-        tmp = os.path.join(EVIDENCE_DIR, f".{self.pid}.json.tmp")
-        with open(tmp, "w") as f:
-            json.dump(ev, f, indent=1, default=str)
-        os.replace(tmp, os.path.join(EVIDENCE_DIR, f"{self.pid}.json"))
+        if not getattr(self, "is_replay", False):
+            os.makedirs(EVIDENCE_DIR, exist_ok=True)
+            tmp = os.path.join(EVIDENCE_DIR, f".{self.pid}.json.tmp")
+            with open(tmp, "w") as f:
+                json.dump(ev, f, indent=1, default=str)
+            os.replace(tmp, os.path.join(EVIDENCE_DIR, f"{self.pid}.json"))
         shutil.rmtree(self.scratch, ignore_errors=True)
         for key, n in sorted(self.known_hits.items()):
             print(f"KNOWN-FINDING: property={self.pid} {key}: {self.known[(self.pid, key)]} ({n} cases)")
@@ -161,6 +162,7 @@ def main_wrapper(fn, pid: str, argv: list[str]) -> int:
             a.tier = rep.get("tier", a.tier)
             want_key, a.replay = rep.get("key"), None
     chk = Check(pid, a.tier)
+    chk.is_replay = bool(a.replay) or want_key is not None     # a replay does not rewrite the evidence file
     try:
         fn(chk, a.replay)
         if want_key is not None:
